@@ -1,115 +1,17 @@
 /-
-  The dispatch of `Debiaser.apply` / `DeltaChange.apply` onto the two map functions, as a table (C05, C13).
+  What the property demands of `cls.apply(…, parallel, failsafe, **kwargs)` for the two classes that define `apply`
+  (C05, C13): `spec`.
 
-  `paths` / `facts` are the hand-written copies of what `translator/extract_griddispatch.py` regenerates from the
-  current source into `Gen/GridDispatch.lean`; `Lemmas/GenGridDispatch.lean` proves them equal (tier A).  `interp` reads
-  a call site's argument list as a call of the model `Model.Grid.applyGrid`: which time axis sizes the output, which
-  mode, whether the failsafe flag and the keyword arguments are forwarded.  The theorems about `interp` (Props.C05 /
-  Props.C13) therefore speak about the four call sites the code has *now*.
+  That the code does this is tier A, semantic: `translator/extract_gridloops.py` regenerates the structure of the two
+  `apply` methods, of the two map functions and of the catch wrapper (`Gen/GridLoops.lean`, names of locals and parameters
+  resolved to roles), and `Lemmas.GenGridLoops.gen_apply_eq_spec` / `Props.C05.dispatch_correct` prove that what the
+  regenerated specs denote is `spec`.  (The former textual tables `paths` / `facts` of this file — normalised source text
+  of statements and call arguments — broke on a rename of a local variable and are retired.)
 -/
 import IbicusModel.Model.Grid
 
 namespace Model.GridDispatch
 open Model.Grid
-
-/-- one call site `output = Debiaser.<map function>(…)` -/
-structure Path where
-  cls : String
-  /-- branch of `if parallel:` -/
-  parallel : Bool
-  callee : String
-  positional : List String
-  /-- keyword arguments in source order: name, expression text -/
-  keywords : List (String × String)
-  /-- `**kwargs` forwarded -/
-  starKwargs : Bool
-deriving DecidableEq, Repr
-
-/-- the four call sites (hand-written; `Lemmas.GenGridDispatch.paths` ties it to the source) -/
-def paths : List Path := [
-  ⟨"Debiaser", true, "Debiaser.parallel_map_over_locations", ["self.apply_location"], [("output_size", "cm_future.shape"), ("obs", "obs"), ("cm_hist", "cm_hist"), ("cm_future", "cm_future"), ("nr_processes", "nr_processes"), ("failsafe", "failsafe")], true⟩,
-  ⟨"Debiaser", false, "Debiaser.map_over_locations", ["self.apply_location"], [("output_size", "cm_future.shape"), ("obs", "obs"), ("cm_hist", "cm_hist"), ("cm_future", "cm_future"), ("progressbar", "progressbar"), ("failsafe", "failsafe")], true⟩,
-  ⟨"DeltaChange", true, "Debiaser.parallel_map_over_locations", ["self.apply_location"], [("output_size", "obs.shape"), ("obs", "obs"), ("cm_hist", "cm_hist"), ("cm_future", "cm_future"), ("nr_processes", "nr_processes"), ("failsafe", "failsafe")], true⟩,
-  ⟨"DeltaChange", false, "Debiaser.map_over_locations", ["self.apply_location"], [("output_size", "obs.shape"), ("obs", "obs"), ("cm_hist", "cm_hist"), ("cm_future", "cm_future"), ("progressbar", "progressbar"), ("failsafe", "failsafe")], true⟩
-]
-
-/-- the statements of the catch wrapper and of the two map functions (hand-written; tied by `Lemmas.GenGridDispatch.facts`) -/
-def facts : List (String × String) := [
-  ("apply.Debiaser.signature", "self, obs, cm_hist, cm_future, progressbar=True, parallel=False, nr_processes=4, failsafe=False, **kwargs"),
-  ("apply.Debiaser.returns", "output"),
-  ("apply.Debiaser.inputs", "obs, cm_hist, cm_future = self._check_inputs_and_convert_if_possible(obs, cm_hist, cm_future)"),
-  ("apply.DeltaChange.signature", "self, obs, cm_hist, cm_future, progressbar=True, parallel=False, nr_processes=4, failsafe=False, **kwargs"),
-  ("apply.DeltaChange.returns", "output"),
-  ("apply.DeltaChange.inputs", "obs, cm_hist, cm_future = self._check_inputs_and_convert_if_possible(obs, cm_hist, cm_future)"),
-  ("catch.signature", "obs, cm_hist, cm_future, func, failsafe=False, **kwargs"),
-  ("catch.try", "return func(obs, cm_hist, cm_future, **kwargs)"),
-  ("catch.except", "Exception"),
-  ("catch.test", "failsafe"),
-  ("catch.failsafe_exits", "return np.nan"),
-  ("catch.else", "raise"),
-  ("serial.signature", "func, output_size, obs, cm_hist, cm_future, progressbar=True, failsafe=False, **kwargs"),
-  ("serial.output", "np.empty(output_size, dtype=cm_future.dtype)"),
-  ("serial.indices", "np.ndindex(obs.shape[1:])"),
-  ("serial.loop", "for (i, j) in indices"),
-  ("serial.assign_target", "output[:, i, j]"),
-  ("serial.assign_value", "Debiaser._run_func_on_location_and_catch_error(obs[:, i, j], cm_hist[:, i, j], cm_future[:, i, j], func, failsafe=failsafe, **kwargs)"),
-  ("serial.returns", "output"),
-  ("parallel.signature", "func, output_size, obs, cm_hist, cm_future, nr_processes=4, failsafe=False, **kwargs"),
-  ("parallel.pool", "Pool(processes=nr_processes) as pool"),
-  ("parallel.result_target", "result"),
-  ("parallel.map_function", "pool.starmap"),
-  ("parallel.map_arg0", "partial(Debiaser._run_func_on_location_and_catch_error, func=func, failsafe=failsafe, **kwargs)"),
-  ("parallel.map_arg1", "[(obs[:, i, j], cm_hist[:, i, j], cm_future[:, i, j]) for i, j in indices]"),
-  ("parallel.map_keywords", ""),
-  ("parallel.indices", "[(i, j) for i in range(obs.shape[1]) for j in range(obs.shape[2])]"),
-  ("parallel.output", "np.empty(output_size, dtype=cm_future.dtype)"),
-  ("parallel.writeback_loop", "for (k, index) in enumerate(indices)"),
-  ("parallel.writeback", "output[:, index[0], index[1]] = result[k]"),
-  ("parallel.returns", "output")
-]
-
-/-- the expression passed for keyword `k` -/
-def kwOf (p : Path) (k : String) : Option String := (p.keywords.find? (fun kv => kv.1 == k)).map (fun kv => kv.2)
-
-/-- which input's time axis sizes the output -/
-inductive TimeAxis where
-  | fut : TimeAxis
-  | obs : TimeAxis
-deriving DecidableEq, Repr
-
-def timeAxis (p : Path) : Option TimeAxis :=
-  match kwOf p "output_size" with
-  | some s => if s = "cm_future.shape" then some .fut else if s = "obs.shape" then some .obs else none
-  | none => none
-
-/-- the map function called, consistent with the branch it is called in -/
-def modeOf (p : Path) (sched : List Nat) : Option Mode :=
-  if p.callee = "Debiaser.map_over_locations" ∧ p.parallel = false then some .serial
-  else if p.callee = "Debiaser.parallel_map_over_locations" ∧ p.parallel = true then some (.parallel sched)
-  else none
-
-/-- the failsafe flag the map function receives: the caller's, or the signature default `False` when not passed -/
-def failsafeOf (p : Path) (failsafe : Bool) : Option Bool :=
-  match kwOf p "failsafe" with
-  | some s => if s = "failsafe" then some failsafe else none
-  | none => some false
-
-/-- the three data arguments are passed through under their own names and the location function is the bound method -/
-def dataOk (p : Path) : Bool :=
-  p.positional == ["self.apply_location"] && kwOf p "obs" == some "obs" && kwOf p "cm_hist" == some "cm_hist" &&
-    kwOf p "cm_future" == some "cm_future"
-
-/-- what a call site computes, read off its argument list (`noKw`: what `apply_location` sees when `**kwargs` is not
-    forwarded); `none` = the call site has a shape this reading does not cover -/
-def interp {κ α ε} (p : Path) (loc : LocFnKw κ α ε) (kw noKw : κ) (failsafe : Bool) (obs hist fut : Arr3 α)
-    (nx ny : Nat) (sched : List Nat) : Option (Except (Err ε) (Arr3 (Elem α))) :=
-  if dataOk p then
-    match timeAxis p, modeOf p sched, failsafeOf p failsafe with
-    | some ax, some m, some fsv =>
-        some (applyGrid (cellFn (loc (if p.starKwargs then kw else noKw)) obs hist fut) fsv
-          (match ax with | .fut => fut.length | .obs => obs.length) nx ny m)
-    | _, _, _ => none
-  else none
 
 /-- what the property demands of `cls.apply(…, parallel, failsafe, **kwargs)` -/
 def spec {κ α ε} (cls : String) (parallel : Bool) (loc : LocFnKw κ α ε) (kw : κ) (failsafe : Bool) (obs hist fut : Arr3 α)
@@ -117,8 +19,5 @@ def spec {κ α ε} (cls : String) (parallel : Bool) (loc : LocFnKw κ α ε) (k
   let m : Mode := if parallel then .parallel sched else .serial
   if cls = "DeltaChange" then deltaChangeApplyKw loc kw failsafe obs hist fut nx ny m
   else debiaserApplyKw loc kw failsafe obs hist fut nx ny m
-
-/-- the value of a fact -/
-def fact (k : String) : Option String := (facts.find? (fun kv => kv.1 == k)).map (fun kv => kv.2)
 
 end Model.GridDispatch
